@@ -542,7 +542,7 @@ func lockstepInits(label ssa.Value, add *ssa.Call) ([]ssa.Value, string) {
 				switch {
 				case b.Op != token.ADD || !isC || k != 1:
 					why = fmt.Sprintf("counter changes by %s %s per step", b.Op, b.Y.Name())
-				case b.Block() != add.Block():
+				case b.Block() != add.Block() && !inLockstep(add, b):
 					why = "the counter is advanced outside the block that adds the header"
 				case ssa.Value(p2) != add.Call.Args[2]:
 					why = "the counter advanced is not the label passed to add()"
@@ -561,6 +561,16 @@ func lockstepInits(label ssa.Value, add *ssa.Call) ([]ssa.Value, string) {
 				found = true
 			}
 		}
+	}
+	if !found {
+		// in another block of the same iteration, passed exactly when the add is
+		kit.AllInstrs(add.Parent(), func(in ssa.Instruction) {
+			if b, ok := in.(*ssa.BinOp); ok && b.Op == token.ADD && b.X == add.Call.Args[2] {
+				if k, ok := kit.ConstInt(b.Y); ok && k == 1 && inLockstep(add, b) {
+					found = true
+				}
+			}
+		})
 	}
 	if !found && why == "" {
 		why = "no `label + 1` next to the add() call"
@@ -676,4 +686,28 @@ func innermostLoop(f *ssa.Function, b *ssa.BasicBlock) (*ssa.BasicBlock, map[*ss
 		}
 	}
 	return best, bestL
+}
+
+// inLockstep: within one iteration of the innermost loop around add, the increment inc is executed
+// exactly when add is: every path from add to the next iteration passes inc, and inc is not
+// reachable from the top of an iteration without passing add (a callback-style iterator puts the
+// add into the callback and the increment behind the callback's `keep going` answer).
+func inLockstep(add *ssa.Call, inc ssa.Instruction) bool {
+	f := add.Parent()
+	header, loop := innermostLoop(f, add.Block())
+	if header == nil || !loop[inc.Block()] || len(header.Instrs) == 0 {
+		return false
+	}
+	after := kit.Reach(f, kit.After(add), kit.Opts{StopAt: kit.InstrSet(inc)})
+	if after.Has(header.Instrs[0]) {
+		return false
+	}
+	var starts []kit.Pt
+	for _, s := range header.Succs {
+		if loop[s] {
+			starts = append(starts, kit.Pt{B: s, I: 0})
+		}
+	}
+	before := kit.Reach(f, starts, kit.Opts{StopAt: kit.InstrSet(add)})
+	return !before.Has(inc)
 }
